@@ -276,6 +276,10 @@ func c04(env *Env, rep *Report) {
 			}
 		}
 	}
+	if gwBin() != "" && env.Shard == 0 {
+		bindCore(rep, "C04")
+		bindModes(rep, "C04")
+	}
 	rep.add("distinct", int64(distinct))
 	rep.add("states", int64(distinct))
 	_ = protocol.CtxTunnel
